@@ -167,10 +167,16 @@ theorem fold_window_exact_unscaled (p : Params) (st : Stages) (c w : Rat) (s : I
   rw [fold_exact_value c w 0 1 p.lo p.hi s one_ne_zero (ne_of_gt hw) "LINEAR_EXACT" hfn, window_exact c w p.lo p.hi _ hw hr]
   cases st.invert <;> simp [invertOut]
 
-/-- **LINEAR window behind a rescale with any slope m != 0** - full statement (it held only for m = 1 before
+/- Full statement (PS3.3 C.11.2.1.2.1 allows every width >= 1):
+     theorem fold_window_linear ... (hw : 1 ≤ w) ... : folded p st s = ref p st s
+   It does not hold of the current source for w = 1 (open finding C06-linear-width-one: `apply_voi_window` divides by
+   w - 1; numpy returns NaN for the pixel equal to c - 0.5, and behind a negative slope the folded window of width 1
+   has lost its direction).  Proved: every width > 1 (`_partial` = exactly the width-1 case is missing); see
+   `counterexample_linear_width_one`. -/
+/-- **LINEAR window behind a rescale with any slope m != 0**, every width > 1 (it held only for m = 1 before
 the fix babe92f in /repo): the effective centre / width computed by the current source,
 ((c - 1/2 - b) / m + 1/2, (w - 1) / m + 1), reproduce C.11.2.1.2.1 on the rescaled value exactly. -/
-theorem fold_window_linear (p : Params) (st : Stages) (m b c w : Rat) (s : Int)
+theorem fold_window_linear_partial (p : Params) (st : Stages) (m b c w : Rat) (s : Int)
     (hp : p.modality = .rescale m b) (hv : p.voi = .window .linear c w)
     (hm : m ≠ 0) (hw : 1 < w) (hr : p.lo < p.hi)
     (h1 : st.rwvm = false) (h2 : st.modality = true) (h3 : st.voi = true) :
@@ -180,7 +186,7 @@ theorem fold_window_linear (p : Params) (st : Stages) (m b c w : Rat) (s : Int)
   rw [fold_linear_value c w b m p.lo p.hi s hm (by linarith), window_linear c w p.lo p.hi _ hw hr]
   cases st.invert <;> simp [invertOut]
 
-theorem fold_window_linear_unscaled (p : Params) (st : Stages) (c w : Rat) (s : Int)
+theorem fold_window_linear_unscaled_partial (p : Params) (st : Stages) (c w : Rat) (s : Int)
     (hv : p.voi = .window .linear c w) (hw : 1 < w) (hr : p.lo < p.hi)
     (h1 : st.rwvm = false) (h2 : st.modality = false) (h3 : st.voi = true) :
     folded p st s = ref p st s := by
@@ -250,7 +256,7 @@ theorem fold_modlut_window_exact (p : Params) (st : Stages) (mfirst : Int) (mdat
     rw [window_exact c w p.lo p.hi _ hw hr]
     cases st.invert <;> simp [invertOut]
 
-theorem fold_modlut_window_linear (p : Params) (st : Stages) (mfirst : Int) (mdata : List Nat) (c w : Rat) (s : Int)
+theorem fold_modlut_window_linear_partial (p : Params) (st : Stages) (mfirst : Int) (mdata : List Nat) (c w : Rat) (s : Int)
     (hp : p.modality = .lut mfirst mdata) (hv : p.voi = .window .linear c w) (hw : 1 < w) (hr : p.lo < p.hi)
     (h1 : st.rwvm = false) (h2 : st.modality = true) (h3 : st.voi = true) :
     folded p st s = ref p st s := by
@@ -535,7 +541,7 @@ theorem folded_eq_ref (exp : Rat → Rat) (hexp : ∀ a, exp (-a) * exp a = 1) (
         | none => exact absurd hv (hvp h3)
         | window fn c w =>
           cases fn with
-          | linear => exact map_congr_of_eq _ (fold_window_linear_unscaled p st c w s hv (hwl c w h3 hv) hr h1 h2 h3)
+          | linear => exact map_congr_of_eq _ (fold_window_linear_unscaled_partial p st c w s hv (hwl c w h3 hv) hr h1 h2 h3)
           | exact => exact map_congr_of_eq _ (fold_window_exact_unscaled p st c w s hv (hwe c w h3 hv) hr h1 h2 h3)
           | sigmoid => exact fold_sigmoid_unscaled_eval exp hexp hpos p st c w s hv (hws c w h3 hv) h1 h2 h3
         | lut vfirst vdata =>
@@ -559,7 +565,7 @@ theorem folded_eq_ref (exp : Rat → Rat) (hexp : ∀ a, exp (-a) * exp a = 1) (
           | window fn c w =>
             have hm := hsl m b fn c w h2 hp h3 hv
             cases fn with
-            | linear => exact map_congr_of_eq _ (fold_window_linear p st m b c w s hp hv hm (hwl c w h3 hv) hr h1 h2 h3)
+            | linear => exact map_congr_of_eq _ (fold_window_linear_partial p st m b c w s hp hv hm (hwl c w h3 hv) hr h1 h2 h3)
             | exact => exact map_congr_of_eq _ (fold_window_exact p st m b c w s hp hv hm (hwe c w h3 hv) hr h1 h2 h3)
             | sigmoid => exact fold_sigmoid_eval exp hexp hpos p st m b c w s hp hv hm (hws c w h3 hv) h1 h2 h3
           | lut vfirst vdata =>
@@ -582,7 +588,7 @@ theorem folded_eq_ref (exp : Rat → Rat) (hexp : ∀ a, exp (-a) * exp a = 1) (
           | none => exact absurd hv (hvp h3)
           | window fn c w =>
             cases fn with
-            | linear => exact map_congr_of_eq _ (fold_modlut_window_linear p st mfirst mdata c w s hp hv (hwl c w h3 hv) hr h1 h2 h3)
+            | linear => exact map_congr_of_eq _ (fold_modlut_window_linear_partial p st mfirst mdata c w s hp hv (hwl c w h3 hv) hr h1 h2 h3)
             | exact => exact map_congr_of_eq _ (fold_modlut_window_exact p st mfirst mdata c w s hp hv (hwe c w h3 hv) hr h1 h2 h3)
             | sigmoid => exact fold_modlut_sigmoid_eval exp hexp hpos p st mfirst mdata c w s hp hv h1 h2 h3
           | lut vfirst vdata =>
@@ -816,6 +822,18 @@ theorem frames_eq_frame {ρ μ ω β} (im : Meta ρ μ ω) (useRw useMod useVoi 
       rw [opt_find_stable _ useMod n f h2 h0 hfn hall.1, opt_find_stable _ useVoi n f h3 h0 hfn hall.2]
   · simp [hall]
 
+/-- **Counterexample at width 1** (open finding C06-linear-width-one).  At w = 1 the window function as written
+divides by w - 1 = 0.  Over `Rat` (x / 0 = 0) the translated formula returns the lower output value for a pixel
+*above* the step, where the standard demands the upper one; numpy instead produces inf / NaN (NaN exactly at the
+step: the real-code witness stored 10, centre 10.5 is replayed by every run).  Either way the hypothesis `1 < w`
+of `fold_window_linear_partial` cannot be weakened to `1 ≤ w`. -/
+theorem counterexample_linear_width_one :
+    folded { modality := .none, voi := .window .linear (21/2) 1, rwvm := .none, imin := 0, imax := 255, lo := 0, hi := 1 }
+        ⟨false, false, true, false, false, false⟩ 11
+      ≠ ref { modality := .none, voi := .window .linear (21/2) 1, rwvm := .none, imin := 0, imax := 255, lo := 0, hi := 1 }
+        ⟨false, false, true, false, false, false⟩ 11 := by
+  decide +kernel
+
 /-! ## Non-vacuity: concrete inputs meeting the hypotheses (evaluated in the kernel) -/
 
 /-- rescale 2 s - 5, LINEAR window centre 40 width 17 (the witness of the fixed defect babe92f): stored 20
@@ -827,7 +845,7 @@ def exStages : Stages := ⟨false, true, true, false, false, false⟩
 example : folded exWindow exStages 20 = .ok (.val (7/32)) ∧ ref exWindow exStages 20 = .ok (.val (7/32)) := by
   decide +kernel
 example : folded exWindow exStages 20 = ref exWindow exStages 20 :=
-  fold_window_linear exWindow exStages 2 (-5) 40 17 20 rfl rfl (by decide) (by decide +kernel) (by decide +kernel) rfl rfl rfl
+  fold_window_linear_partial exWindow exStages 2 (-5) 40 17 20 rfl rfl (by decide) (by decide +kernel) (by decide +kernel) rfl rfl rfl
 
 /-- rescale -2 s + 20 in front of a 4-entry VOI LUT starting at 3 (witness of adab703): stored 4..9 ->
 modality 12, 10, 8, 6, 4, 2 -> entries 3, 3, 3, 3, 1, 0 -/
